@@ -112,6 +112,8 @@ def apply_rules(text, opts, counts, recursor_file):
     run('R2', X.r2_stat)
     run('R3', X.r3_debug_assert)
     run('R20', X.r20_eprintln)
+    if 'fmtstub' in opts:
+        run('R21', X.r21_format)
     run('R4', X.r4_or_guard)
     if recursor_file:
         run('R5', X.r5_recursor, recursor_bodies(recursor_file))
